@@ -504,8 +504,16 @@ type chanRig struct {
 	keepOpen bool
 }
 
+func newChanRigDeferred(queue int, deferSender bool, handlers ...netty.Handler) *chanRig {
+	return newChanRigWith(queue, &mock.InlineExec{Defer: deferSender}, handlers...)
+}
+
 func newChanRig(queue int, handlers ...netty.Handler) *chanRig {
-	r := &chanRig{tr: mock.NewTransport(nil, false, nil), ex: &mock.InlineExec{}}
+	return newChanRigWith(queue, &mock.InlineExec{}, handlers...)
+}
+
+func newChanRigWith(queue int, ex *mock.InlineExec, handlers ...netty.Handler) *chanRig {
+	r := &chanRig{tr: mock.NewTransport(nil, false, nil), ex: ex}
 	r.pl = netty.NewPipeline()
 	factory := netty.NewChannel()
 	if queue > 0 {
@@ -557,6 +565,7 @@ func (r *chanRig) quiesce(timeout time.Duration) bool {
 }
 
 func (r *chanRig) shutdown() {
+	r.ex.RunDeferred()
 	r.ch.Close(nil)
 	r.ex.WG.Wait()
 }
@@ -613,3 +622,6 @@ func runC04Channel(c C04Case, cd wire.Codec, stream []byte, ends []int, want [][
 	out.NonTrivial = len(want) >= 2 && len(c.Cuts) > 0
 	return
 }
+
+// wireNone is the zero codec configuration (plain pseudo-random payloads).
+var wireNone = wire.Codec{}
